@@ -15,12 +15,14 @@ def run(chk):
                 dict(name="recursion depth (finding candidates, children only)", cmd="c03-deep", stats="C03_deep_stats.json", n_quick=1, n_thorough=1,
                      what="smallest nesting depth at which a child process dies with Go's unrecoverable 'stack overflow' (parentheses, additions, nested blocks, and a TERMINATING recursive script); quick tier with the child's stack limited to 16 MB (depths scale by 32 to Go's default), thorough tier with Go's default limit; plus terminating scripts that exhaust a 3 GB address space (Go's out of memory is fatal)")],
         assumptions=[
-            "PROVED (Print Assumptions: closed): glue and handlers of Model/Host.v never let a panic escape GIVEN the stage invariants of entry_hyps (c03_contain); error prefixes (c03_prefix, c03_prefix_load with the 'unexpected returns' exception); token list non-empty and (eof)-terminated => parse's handler finds p.Token non-nil (c03_inv_tokens); newPos/pos.info round trip for 16-bit fields (c03_inv_pos_roundtrip); btErr total for every frame.N and backtrace over stamped positions (c03_inv_bterr_total); loadImports returns the top package at least (c03_inv_pkgs_nonempty, on Model/Loader.v); treeDump's s[3:len(s)-1] in range for every tree loadImports hands on (c03_inv_tree_dump); Func/Call contain every requested result count (c03_inv_func); only the running script or an infinite import graph can hang an entry point (c03_hang)",
-            "PROVED termination: Pratt loop on ANY token list within |tokens|+1 (c03_terminates_pratt), loader loops (c03_terminates_load = C15), lookup renamers (c03_terminates_lookup = C08), peephole fuel (c03_terminates_peephole), cursor discipline of every statement-level parser loop on the skeleton Model/Cursor.v (c03_parse_progress_partial / _general), recursion depth <= |tokens|+1 (c03_depth_bound)",
-            "ASSUMED, TESTED by c03-fuzz and FALSIFIED on the current tree (the model escapes without them: c03_escape_* examples; the fuzzer reports the inputs): every import path token is accepted by strconv.Unquote (false: text/scanner accepts \"\\400\", \"\\ud800\"); the fs.FS is non-nil when the source has imports (false for the Eval(nil, ...) idiom of the repository's tests); parse trees contain no nil child when WithTreeDump is on (false: 'x /;'); line, column and global indices fit 16 bits (false: a statement after 65536 newlines)",
-            "ASSUMED, TESTED by c03-fuzz (no counterexample found): text/scanner and tokenize do not panic; p.Token is assigned only from p.Tokens[p.N] (parse.go:78) so it is non-nil after the first Next; rawLoadPackage / joinFiles index only nodes that exist (a top-level 'package' node has a child; import nodes hold (name, string) pairs); fs.FS methods return; operands that instruction.String passes to lookup.Key are valid global indices; globals' key 0 is \"nil\" and keys are never removed; natives called through Func do not kill the process",
+            "PROVED (Print Assumptions: closed): with the glue and handlers of Model/Host.v exact (loadImports' deferred recover, rawLoadPackage's nil-fs guard, the nil-safe token.String, newPos' clamp16, Load's prefixed 'unexpected returns'), no panic escapes Eval / Load / Call / Func GIVEN entry_hyps (c03_contain); the loader needs no hypothesis at all (c03_loader_contained: unquotable import paths, nil nodes, nil fs.FS, panics while reading imported packages); every error of Eval and of Load carries a stage prefix (c03_prefix, c03_prefix_load, no exception left); token list non-empty and (eof)-terminated => parse's handler finds p.Token non-nil (c03_inv_tokens); newPos/pos.info keep every field in place for ARBITRARY indices, lines and columns (c03_inv_pos_roundtrip, c03_inv_pos_string); btErr total for every frame.N and backtrace (c03_inv_bterr_total); loadImports returns the top package at least (c03_inv_pkgs_nonempty); treeDump's s[3:len(s)-1] in range for every tree loadImports hands on, nil operands included (c03_inv_tree_dump); Func/Call contain every requested result count (c03_inv_func); only the running script or a worklist that exhausts its budget can hang an entry point (c03_hang, c03_hang_load)",
+            "PROVED termination: Pratt loop on ANY token list within |tokens|+1 (c03_terminates_pratt), loader worklist on every finite import-closed universe within 2 + #import entries (c03_terminates_load, proved here on Model/Loader.v; it does not rely on C15's c15_terminates), lookup renamers (c03_terminates_lookup = C08), peephole fuel (c03_terminates_peephole), cursor discipline of every statement-level parser loop on the skeleton Model/Cursor.v (c03_parse_progress_partial / _general), recursion depth <= |tokens|+1 (c03_depth_bound)",
+            "DISCHARGED by the repo fixes bc98689 371cd14 47eb9a0 29c9c35 6607b34 (no longer hypotheses; the former c03_escape_* examples are now c03_fixed_*): import paths need not unquote; the fs.FS may be nil; parse trees may contain nil operands with WithTreeDump on; line, column and global indices need not fit 16 bits; Load's 'unexpected returns' is prefixed",
+            "ASSUMED (entry_hyps), TESTED by c03-fuzz, no counterexample on the current tree: text/scanner and tokenize do not panic (ea_scan <> ScanPanic); the positions on running / dumped code were stamped by newPos with indices lookup.Index returned, and no key of the globals table is empty and keys are never removed (vmstate_ok, keys_ok); the operands instruction.String passes to lookup.Key are valid global indices (comp_beh_ok, only with WithCodeDump); for Load: reading the ARGUMENT package (rawLoadPackage / rawLoadFile / joinFiles, which run outside loadImports' recover) does not panic, i.e. a top-level 'package' node has a child and the file lists are non-empty where indexed (la_top <> TopPanic)",
+            "ASSUMED by the shape of the model, TESTED by c03-corr / c03-fuzz: p.Token is assigned only from p.Tokens[p.N] (parse.go:78); parse returns the node &token{Text:\"_\"} with the statements appended and joinFiles returns symAtPos(pos, \"_\") with the files' nodes (so package trees have the text \"_\"); fs.FS methods return; natives called through Func do not kill the process",
             "ASSUMED, NOT TESTED: Model/Cursor.v goat_table is a hand transcription of the control skeleton of parse.go / symbol.go (no hook exposes the cursor); termination of compile is argued from structural recursion on the finite tree plus c03_terminates_lookup / c03_terminates_peephole (no Coq model of compiler.compile exists); Go's text/scanner, strconv, fmt, io/fs are total",
-            "EXCEPTED by the property: a script that does not terminate (watchdog timeouts in the run stage and children that die from unbounded script recursion are counted, not failed); recursion-depth deaths of the front end (c03-deep) are reported as finding candidates only",
+            "EXCEPTED by the property: a script that does not terminate (watchdog timeouts in the run stage and children that die from unbounded script recursion are counted, not failed)",
+            "OUTSIDE the fuzz streams (nesting there stops at depth 2000): Go's unrecoverable 'stack overflow' on deeply nested SOURCE.  The c03-deep command measures it in child processes on every run and reports the smallest killing depth as a failing input of kind 'deep-nesting' (registered open finding C03-deep-nesting-stack-overflow): with Go's default 1 GB stack limit ~2.5 M nested parentheses (5 MB of source, parser recursion), ~240 K additions 1+1+...+1 (480 KB, compile recursion on the left-deep tree) or ~120 K nested blocks (850 KB) kill the host; terminating scripts that exhaust memory or recurse ~460 K deep are listed as resource candidates only",
         ])
     # the recursion-depth experiment has no pass/fail of its own: copy its table into the evidence
     st = os.path.join(V.CASES, chk.pid, "C03_deep_stats.json")
